@@ -449,6 +449,13 @@ def rmw_and_ids(ctx):
     if ob9.need(len(rp) == 1, "B response push not found"):
         g = v.guard_keys(rp[0], False)
         ob9.instance("B response push", sorted(g))
+        idf = [o for o in v.d.objs if o.cls == "SyncFIFO" and str(o) == "id_buffer"]
+        bufd = idf[0].kwargs.get("buffered", idf[0].args[2] if idf and len(idf[0].args) > 2 else None) if idf else None
+        ob9.instance("write ID FIFO", {"buffered": key(bufd) if bufd is not None else "False (default)"})
+        if "id_buffer.source.valid" not in g and bufd is not None and not is0(bufd) and not (isinstance(bufd, Const) and bufd.v is False):
+            ob9.refute("bid-fifo-buffered", "the write ID FIFO is built with buffered=%s while the B response is pushed without id_buffer.source.valid: a buffered FIFO shows an entry "
+                       "only two cycles after the push, so a burst whose last beat is handed over one cycle after its command already gets a stale ID (and every later response "
+                       "is shifted by one)" % key(bufd), idf[0].loc)
         if "id_buffer.source.valid" not in g:
             ob9.refute("bid-without-valid-id", "the B response is pushed under %s with resp.id = id_buffer.source.id, without id_buffer.source.valid: when the "
                        "native port accepts a single-beat write's command and data in the same cycle the ID entry is only being pushed, so the response "
@@ -466,12 +473,42 @@ def capacity_and_forks(ctx):
             continue
         mx = c_.kwargs.get("max")
         ob10.instance("%s reservation counter %s" % (nm, c_), {"max": key(mx) if mx is not None else None, "bits": key(c_.args[0]) if c_.args else None})
+        # the largest value the counter has to hold: the read path reserves up to buffer_depth; the write path reserves every buffered beat, and a BUFFERED
+        # SyncFIFO holds depth + 1 words (storage plus output register), so its level - and with it the reservation - reaches buffer_depth + 1
+        top = Sym("buffer_depth")
+        if nm == "write":
+            wb = [o for o in v.d.objs if o.cls == "SyncFIFO" and str(o) == "w_buffer"]
+            bufd = wb[0].kwargs.get("buffered") if wb else None
+            if wb and bufd is not None and not is0(bufd) and not (isinstance(bufd, Const) and bufd.v is False):
+                top = Op("+", (Sym("buffer_depth"), Const(1)))
+            ob10.instance("write buffer capacity", {"buffered": key(bufd) if bufd is not None else None, "largest reservation": key(top)})
         if mx is not None:
-            if lin_ge(mx, Op("+", (Sym("buffer_depth"), Const(1)))) is not True:
-                ob10.refute("counter-range:%s" % nm, "the %s reservation counter %s is declared with max=%s, so it cannot hold the value buffer_depth (max must be > buffer_depth): "
-                            "with a power-of-two depth it wraps to 0 when the buffer is completely reserved" % (nm, c_, key(mx)), c_.loc)
+            if lin_ge(mx, Op("+", (top, Const(1)))) is not True:
+                ob10.refute("counter-range:%s" % nm, "the %s reservation counter %s is declared with max=%s, so it cannot hold the value %s it has to count up to (max must be "
+                            "larger): for depths where that value is a power of two it wraps to 0 while beats are still owed to accepted commands" %
+                            (nm, c_, key(mx), key(top)), c_.loc)
         elif not c_.args:
             ob10.unknown("%s reservation counter %s has neither max nor an explicit width" % (nm, c_))
+    # C09.12: the B response of a completed burst must not be dropped when the response FIFO is full (the master may hold BREADY low for as long as it likes)
+    ob12 = ctx.ob("C09.12", "a completed write burst's response is not lost when the master stalls the B channel: the push into the response FIFO either observes that FIFO's "
+                            "ready, or the write path is held back (last data beat / command issue) while the response FIFO is full", 1)
+    v0 = wview(ctx, False)
+    push = [d for d in v0.drivers("resp_buffer.sink.valid") if not is0(d.value)]
+    if ob12.need(len(push) >= 1, "B response push not found"):
+        RDY = "resp_buffer.sink.ready"
+        def mentions(t_):
+            return RDY in support(expand_term(v0, t_))
+        gated_push = all(any(mentions(c_) for c_, _ in d.guards) or (isinstance(d.value, V) and mentions(d.value)) for d in push)
+        pop = v0.single_comb_def(Sym("w_buffer.source.ready"))
+        gated_pop = pop is not None and mentions(pop)
+        cmdv = [d for d in v0.drivers("port.cmd.valid") if d.fsm is None and not is0(d.value)]
+        gated_cmd = bool(cmdv) and all(any(mentions(c_) for c_, _ in d.guards) or (isinstance(d.value, V) and mentions(d.value)) for d in cmdv)
+        ob12.instance("B response back-pressure", {"push observes ready": gated_push, "data pop held back": gated_pop, "command issue held back": gated_cmd,
+                                                  "push": [str(d)[:120] for d in push]})
+        if not (gated_push or gated_pop or gated_cmd):
+            ob12.refute("b-response-dropped", "the B response is pushed into resp_buffer (and the ID popped) under %s without looking at resp_buffer.sink.ready, and neither the pop of "
+                        "the write data nor the issue of write commands depends on it: once buffer_depth responses wait for BREADY every further completed burst loses its "
+                        "response" % sorted(v0.guard_keys(push[0], False)), push[0].loc)
     w = wview(ctx, True)
     fs = w.fsms("")
     if not ob11.need(len(fs) == 1, "RMW FSM not found"):
